@@ -9,14 +9,15 @@ EXTENDS Integers, Sequences, FiniteSets
 
 CONSTANTS TCallers, TCap, TN, Log
 
-VARIABLES sess, cur, bg, nid, owner, st, tab, unread, ufb, fb, rsv, cons, srv, owed, holder, ring, leaked, late,
+VARIABLES sess, cur, bg, nid, owner, st, tab, unread, ufb, fb, rsv, cons, srv, owed, holder, ring, leaked, late, wbuf, wstale,
           i,      \* next log line
           pend    \* [TCallers -> [op, s, ph, out]]   ph: "idle" | "called" | "done"
 
 SP == INSTANCE StreamPool WITH Callers <- TCallers, Cap <- TCap, N <- TN, MaxSess <- 1, MaxOwed <- 1, MaxUnread <- 1,
-                               DropCloses <- FALSE, GetChecksUnread <- FALSE, Feat <- {}
+                               DropCloses <- FALSE, GetChecksUnread <- FALSE, PutChecksWbuf <- FALSE,
+                               Feat <- {}
 
-spvars == <<sess, cur, bg, nid, owner, st, tab, unread, ufb, fb, rsv, cons, srv, owed, holder, ring, leaked, late>>
+spvars == <<sess, cur, bg, nid, owner, st, tab, unread, ufb, fb, rsv, cons, srv, owed, holder, ring, leaked, late, wbuf, wstale>>
 Idle == [op |-> "none", s |-> 0, ph |-> "idle", out |-> ""]
 
 TInit == SP!Init /\ i = 1 /\ pend = [c \in TCallers |-> Idle]
@@ -57,6 +58,7 @@ Reset == /\ i <= Len(Log) /\ Log[i].ev = "reset"
          /\ rsv' = [s \in 1..TN |-> FALSE] /\ cons' = [s \in 1..TN |-> FALSE]
          /\ srv' = [s \in 1..TN |-> "none"] /\ owed' = [s \in 1..TN |-> 0]
          /\ holder' = [c \in TCallers |-> 0] /\ ring' = <<>> /\ leaked' = {} /\ late' = {}
+         /\ wbuf' = [s \in 1..TN |-> FALSE] /\ wstale' = {}
          /\ i' = i + 1 /\ UNCHANGED pend
 
 TNext == Inv \/ Ret \/ Reset \/ \E c \in TCallers : Lin(c)
